@@ -313,3 +313,82 @@ def read_solution(path, kind):
     els = [tuple(float(t) for t in lines[i + j].split()) for j in range(ne)]
     i += ne
     return dict(header=header, nodes=nodes, elements=els, rest=lines[i:])
+
+
+# ------------------------------------------------------------------------------ independent reader of problem files (C14, C17)
+def _val(s):
+    """canonical value of the text right of '=': ('s', text between first and last quote) | ('n', float) | ('t', lower-case token)"""
+    s = s.strip()
+    if s.startswith('"'):
+        j = s.rfind('"')
+        return ("s", s[1:j] if j > 0 else s[1:])
+    try:
+        return ("n", float(s.split()[0]))
+    except (ValueError, IndexError):
+        return ("t", s.lower())
+
+
+def read_problem(path):
+    """top: {lower-case key: value}; props: {section: [ {key: value, '_table': [(a, b)]} ]}; geom: {section: [[tokens]]}
+    Written independently of the C++ reader: splits at '=', knows the section structure only."""
+    with open(path, "rb") as f:
+        raw = f.read().decode("latin-1")
+    lines = [l.rstrip("\r") for l in raw.split("\n")]
+    top, props, geom = {}, {}, {}
+    i = 0
+    PROPSEC = {"[pointprops]": "point", "[bdryprops]": "bdry", "[blockprops]": "block", "[circuitprops]": "circ", "[conductorprops]": "circ"}
+    GEOSEC = {"[numpoints]": "nodes", "[numsegments]": "segs", "[numarcsegments]": "arcs", "[numholes]": "holes", "[numblocklabels]": "labels"}
+    while i < len(lines):
+        l = lines[i].strip()
+        i += 1
+        if not l:
+            continue
+        if l.lower().startswith("[solution]"):
+            break
+        if not l.startswith("[") or "=" not in l:
+            continue
+        key, _, rest = l.partition("=")
+        key = key.strip().lower()
+        if key in PROPSEC:
+            n = int(float(rest.split()[0]))
+            plist = []
+            while len(plist) < n and i < len(lines):
+                l2 = lines[i].strip()
+                i += 1
+                if l2.lower().startswith("<begin"):
+                    d = {"_table": []}
+                    while i < len(lines):
+                        l3 = lines[i].strip()
+                        i += 1
+                        if l3.lower().startswith("<end"):
+                            break
+                        if l3.startswith("<") and "=" in l3:
+                            k3, _, r3 = l3.partition("=")
+                            d[k3.strip().lower()] = _val(r3)
+                        elif l3:
+                            t = l3.replace(",", " ").split()
+                            try:
+                                d["_table"].append(tuple(float(x) for x in t[:2]))
+                            except ValueError:
+                                pass
+                    plist.append(d)
+            props[PROPSEC[key]] = plist
+            top[key if key != "[circuitprops]" else "[conductorprops]"] = ("n", float(n))
+        elif key in GEOSEC:
+            n = int(float(rest.split()[0]))
+            rows = []
+            while len(rows) < n and i < len(lines):
+                l2 = lines[i].strip()
+                i += 1
+                if not l2:
+                    continue
+                q = l2.find('"')
+                if q >= 0:
+                    toks = l2[:q].split() + [("s", l2[q + 1:l2.rfind('"')])]
+                else:
+                    toks = l2.split()
+                rows.append(toks)
+            geom[GEOSEC[key]] = rows
+        else:
+            top[key] = _val(rest)
+    return dict(top=top, props=props, geom=geom)
